@@ -52,6 +52,10 @@ CLAIMED = {
             "From a state in which the cache holds exactly what a fresh mesh computes (a chosen read-set: nothing / everything / normals only / topology only) ONE mutator runs - apply_transform over the matrix families of C04 with symbolic parameters, in-place and re-assigning edits with a symbolic value, "
             "invert, update_faces, update_vertices, remove_unreferenced_vertices, copy(include_cache) - and 19 derived values equal those of a mesh rebuilt from the resulting arrays for ALL parameter values. The post-state is again 'equal to fresh', so interleavings of any length follow by induction; the bound is the mesh (catalogue tetrahedron / strip).",
             TRUSTED + "catalogue meshes; vertex_normals, ray/nearest structures, kd-tree, hull, principal axes not compared (only that mutators dump them is exercised through the data hash, C02's subject); scale matrices either exact similarities or >= 1e-3 anisotropic (1e-8 similarity band excluded)."),
+    "C05": ("other", "DESIGN.md#c05", "symbolic execution of geometry.faces_to_edges / graph.face_adjacency / graph.is_watertight / grouping on symbolic vertex ids (z3 Int / bit-vectors), comparisons fork; oracle = direct counting written as z3 terms; Trimesh-level queries over small id ranges by solver-driven forks",
+            "Vertex ids are only compared, sorted and packed, so they stay symbolic: for one face (any int64 ids) and for two faces (face 0 = a representative of each face shape, face 1 = ANY three integers below 2^20) every equality/order pattern is a path and edges, adjacency with shared edge, watertightness, winding consistency and unique edges equal their counting definitions. "
+            "Trimesh-level values (edges*, adjacency, Euler number, degree, neighbours, incident faces, components with both back-ends, body count) are checked on all 4096 two-face arrays over ids < 4 and the tetrahedron family with arbitrary winding / repeated / degenerate / missing faces.",
+            TRUSTED + "listing order of pairs/edges not part of the claim; vertex_faces compared as sets and self-loop neighbours of degenerate faces ignored (ambiguous by the statement); angle-defect sum only on two concrete closed manifolds; more than 2 symbolic / 3 enumerated faces not claimed."),
 }
 
 NOT_APPLICABLE = {
